@@ -84,10 +84,11 @@ def confirm(prop, k, crate, rustflags=None, demo_dir=None):
 
 def evaluate(prop, k, tier, checks):
     diff = SEEDP + "%s/mut%s.diff" % (prop, k)
-    rc, out = sh("git -C /repo status --short")
+    REPO = os.environ.get("SEED_REPO", "/repo")
+    rc, out = sh("git -C %s status --short" % REPO)
     if out.strip():
-        return {"error": "/repo is not clean: " + out}
-    rc, out = sh("git -C /repo apply %s" % diff)
+        return {"error": "%s is not clean: " % REPO + out}
+    rc, out = sh("git -C %s apply %s" % (REPO, diff))
     if rc:
         return {"error": "patch does not apply to /repo: " + out[-300:]}
     res = {}
@@ -97,12 +98,12 @@ def evaluate(prop, k, tier, checks):
             rc2, full = 0, out
             res[c] = {"caught": "VIOLATION" in out, "lines": out.strip().split("\n")[:6]}
     finally:
-        sh("git -C /repo checkout -- .")
+        sh("git -C %s checkout -- ." % REPO)
     return res
 
 
 def store(prop, k, name, extra):
-    d = os.path.join(VERIF, "seeded", name)
+    d = os.path.join(os.environ.get("SEED_STORE", os.path.join(VERIF, "seeded")), name)
     os.makedirs(d, exist_ok=True)
     shutil.copy(SEEDP + "%s/mut%s.diff" % (prop, k), os.path.join(d, "patch.diff"))
     dd = os.path.join(d, "demo")
